@@ -1206,8 +1206,9 @@ pub fn generate<W: Write>(mode: &str, r: &mut Rng, out: &mut W) {
         "wc" => {
             let t = gen::any_text(r, false);
             let mut o = gen_opts(r, &t);
-            o.w = match r.below(6) {
+            o.w = match r.below(8) {
                 0 => r.below(4),
+                1 => *r.pick(&[63usize, 64, 65, 127, 128, 129, 130, 131, 140, 200, 257, 300, 400]),
                 _ => r.below(60),
             };
             let gaps = ["", "", " ", "| ", " | ", " |", "Ｈ", "é", "--", "  "];
@@ -1306,7 +1307,14 @@ pub fn generate<W: Write>(mode: &str, r: &mut Rng, out: &mut W) {
                     })
                     .collect()
             };
-            vec!["wrap8".into(), o.enc(), enc::s(&sub(&o.ii)), enc::s(&sub(&o.si)), enc::s(&t)]
+            // sometimes substitute only one of the two indents, so that "the two indents are the
+            // same string" differs between the two runs while widths and emptiness agree
+            let (ii2, si2) = match r.below(3) {
+                0 => (sub(&o.ii), o.si.clone()),
+                1 => (o.ii.clone(), sub(&o.si)),
+                _ => (sub(&o.ii), sub(&o.si)),
+            };
+            vec!["wrap8".into(), o.enc(), enc::s(&ii2), enc::s(&si2), enc::s(&t)]
         }
         "wrap9" => {
             let a = gen::any_text(r, false);
